@@ -210,8 +210,11 @@ def exec_for(E, s):
         havoc()
         k = z3.Int(fresh_name(kname))
         E.assume(z3.And(k >= 0, k < N))
+        inv_assumed = []
         for inv in invs:
-            E.assume(E.spec_bool(inv, inv_env(Z(k, INT))))
+            t = E.spec_bool(inv, inv_env(Z(k, INT)))
+            inv_assumed.append(t)
+            E.assume(t)
         if not E.feasible():
             raise Infeasible()
         E.assign(s.target, spec_iter.elem(k))
@@ -221,13 +224,28 @@ def exec_for(E, s):
             pass
         except BreakSig:
             return
+        using = spec.get('using')
         for j, inv in enumerate(invs):
-            E.oblige('inv-keep', E.spec_bool(inv, inv_env(Z(k + 1, INT))), s,
-                     name='%s/loop%d/inv-keep#%d' % (E.fn_short, ordinal, j + 1))
+            goal = E.spec_bool(inv, inv_env(Z(k + 1, INT)))
+            nm = '%s/loop%d/inv-keep#%d' % (E.fn_short, ordinal, j + 1)
+            if using is None:
+                E.oblige('inv-keep', goal, s, name=nm)
+            else:
+                facts = E.st.ghost.get('facts', {})
+                hyps = list(inv_assumed)
+                for u in using:
+                    v = facts.get(u)
+                    if v is not None:
+                        hyps.extend(v if isinstance(v, list) else [v])
+                E.oblige_focused('inv-keep', hyps, goal, s, name=nm)
         raise StopPath()
     havoc()
+    exit_facts = []
     for inv in invs:
-        E.assume(E.spec_bool(inv, inv_env(Z(N, INT))))
+        t = E.spec_bool(inv, inv_env(Z(N, INT)))
+        exit_facts.append(t)
+        E.assume(t)
+    E.st.ghost.setdefault('facts', {})['loop%d-exit' % ordinal] = exit_facts
     if not E.feasible():
         raise Infeasible()
     E.st.env[kname] = Z(N, INT)
